@@ -256,7 +256,11 @@ pub fn gen_op(rng: &mut Rng, g: &GenCfg, live: &BTreeSet<u64>) -> Op {
             let mut ids: Vec<u64> = (0..n).map(|_| id_live(rng)).collect();
             if rng.chance(0.4) && !ids.is_empty() {
                 let d = ids[0];
-                ids.push(d); // duplicate inside the batch
+                ids.push(d); // duplicate inside the batch, adjacent or not
+                if rng.chance(0.5) {
+                    let other = id_live(rng);
+                    ids.insert(1, other);
+                }
             }
             Op::BatchDelete { ids }
         }
